@@ -82,6 +82,8 @@ ENUM_NAMES = ["inverter", "Eb", "ustate", "fmode", "i", "Id8"]
 def rand_flat_schema(rng, nmsg):
     enums = [randgen.rand_enum(rng, n) for n in rng.sample(ENUM_NAMES, 3)]
     structs, impls = [], []
+    # half of the schemas spread their messages over several devices (one generated pair of files each, linked together)
+    devs = ["ecu"] if rng.random() < 0.5 else ["ecu", "bms", "dash"]
     for mi in range(nmsg):
         left = 64
         fields = []
@@ -113,12 +115,12 @@ def rand_flat_schema(rng, nmsg):
         structs.append({"name": name, "fields": fields})
         impls.append({"name": name, "protocol": "can", "type": name,
                       "fields": [{"name": "id", "value": {"i": rng.choice([0, 1, 2047, rng.randint(0, 2047)])}},
-                                 {"name": "device", "value": {"s": "ecu"}}], "signals": []})
+                                 {"name": "device", "value": {"s": rng.choice(devs)}}], "signals": []})
         if rng.random() < 0.25:
             # the same struct bound a second time under another name and id
             impls.append({"name": name + "b", "protocol": "can", "type": name,
                           "fields": [{"name": "id", "value": {"i": rng.randint(0, 2047)}},
-                                     {"name": "device", "value": {"s": "ecu"}}], "signals": []})
+                                     {"name": "device", "value": {"s": rng.choice(devs)}}], "signals": []})
     return {"structs": structs, "enums": enums, "impls": impls}
 
 
